@@ -244,7 +244,7 @@ class Command:
         if len(item) > 1 and item.startswith('"') and item.endswith('"'):
             # already a quoted string (item comes from the parser)
             return item
-        if item.startswith("text:") and item.rstrip("\r").endswith("\n."):
+        if item.startswith("text:") and item.rstrip("\r")[-2:] in ("\n.", "\r."):
             # multi-line string (item comes from the parser)
             return item + "\n"
         return '"%s"' % item
